@@ -439,15 +439,30 @@ func (s *SSEServer) handleSSE(w http.ResponseWriter, r *http.Request) {
 	// Send initial connection message.
 	stream.SendComment("connection established")
 
+	// The writers below use w: none of them may outlive this handler.
+	var writers sync.WaitGroup
+
 	// Start notification handler.
-	go handleNotifications(ctx, s.logger, w, flusher, session)
+	writers.Add(1)
+	go func() {
+		defer writers.Done()
+		handleNotifications(ctx, s.logger, w, flusher, session)
+	}()
 
 	// Start event queue handler.
-	go handleEventQueue(ctx, s.logger, w, flusher, session)
+	writers.Add(1)
+	go func() {
+		defer writers.Done()
+		handleEventQueue(ctx, s.logger, w, flusher, session)
+	}()
 
 	// Start keep-alive handler.
 	if s.keepAlive {
-		go handleKeepAlive(ctx, s.logger, w, flusher, session, s.keepAliveInterval)
+		writers.Add(1)
+		go func() {
+			defer writers.Done()
+			handleKeepAlive(ctx, s.logger, w, flusher, session, s.keepAliveInterval)
+		}()
 	}
 
 	// Wait for connection to close.
@@ -463,6 +478,10 @@ func (s *SSEServer) handleSSE(w http.ResponseWriter, r *http.Request) {
 	// Clean up resources.
 	closeSessionDone(s.logger, session)
 	s.sessions.Delete(sessionID)
+	// Wait for the writers: the ResponseWriter must not be used after the handler has returned. The write
+	// deadline unblocks a writer that is stalled on a dead peer (not every ResponseWriter supports it).
+	_ = http.NewResponseController(w).SetWriteDeadline(time.Now())
+	writers.Wait()
 	s.logger.Debugf("Cleaned up session %s", sessionID)
 }
 
